@@ -665,3 +665,28 @@ fire('cut-dead-code-elimination-too-eager', ['C05'], ['C05.R2'],
      (G, "                code_a = self.compile_body(body.rhs)\n                return code_a + [ YPCodeYieldBreak() ]",
          "                code_a = self.compile_body(body.rhs)\n                last = code_a[-1] if code_a else None\n                while isinstance(last, YPCodeForeach) and last.loop_code:\n                    last = last.loop_code[-1]\n                if isinstance(last, YPCodeYieldBreak):\n                    return code_a\n                return code_a + [ YPCodeYieldBreak() ]"),
      deep=True)
+
+# ---------------------------------------------------------------------------------------------
+# atom interning decided by evaluating atom() (round 4)
+
+fire('atom-not-interned', ['C16'], ['C16.A1'],
+     (E, """        self._atom_store.setdefault(name, Atom(name))
+        return self._atom_store[name]""",
+         """        self._atom_store[name] = Atom(name)
+        return self._atom_store[name]"""))
+
+silent('atom-lookup-then-create', ['C04', 'C07', 'C17', 'C20'],
+       (E, """        self._atom_store.setdefault(name, Atom(name))
+        return self._atom_store[name]""",
+           """        try:
+            return self._atom_store[name]
+        except KeyError:
+            atom = self._atom_store[name] = Atom(name)
+            return atom"""))
+
+silent('atom-membership-then-create', ['C04', 'C07', 'C17', 'C20'],
+       (E, """        self._atom_store.setdefault(name, Atom(name))
+        return self._atom_store[name]""",
+           """        if name not in self._atom_store:
+            self._atom_store[name] = Atom(name)
+        return self._atom_store[name]"""))
